@@ -5,6 +5,7 @@ import PhysisModel.Proofs.C18Arc
 import PhysisModel.Proofs.C18Mtrl
 import PhysisModel.Proofs.C18Shpk
 import PhysisModel.Proofs.C18Skel
+import PhysisModel.Proofs.C18Mdl
 /-!
 # C18 — damaged game data is rejected without crashing
 
@@ -271,5 +272,28 @@ theorem c18_tera_alloc (b : Bytes) : (C18Skel.tera b).peak ≤ 64 * b.length + 1
 /-- non-vacuity: a 56-byte terrain with one plate parses; the chain file of the generator walks -/
 example : (C18Skel.tera ([3, 0, 0, 1, 1, 0, 0, 0, 128, 0, 0, 0] ++ List.replicate 40 0 ++ [1, 0, 2, 0])).isOk = true := by
   decide
+/-! ## part `mdl`: `MDL::from_existing` (binrw stage + the hand-written level-of-detail / mesh /
+vertex / index / sub-mesh / shape / stream loops), repaired by `fixes/C18-50 … C18-59` -/
+
+theorem c18_mdl_total (b : Bytes) : ¬ faults (C18Mdl.mdl b) := (C18Mdl.mdl_good b).1
+theorem c18_mdl_alloc (b : Bytes) : (C18Mdl.mdl b).peak ≤ 64 * b.length + 16777216 := (C18Mdl.mdl_good b).2
+/-- the binrw stage on its own (`ModelFileHeader::read` + `ModelData::read_args`) -/
+theorem c18_mdl_header_total (b : Bytes) : ¬ faults (C18Mdl.mdlHeader b) := (C18Mdl.mdlHeader_good b).1
+theorem c18_mdl_header_alloc (b : Bytes) : (C18Mdl.mdlHeader b).peak ≤ 64 * b.length + 16777216 :=
+  (C18Mdl.mdlHeader_good b).2
+
+/-- witness of the defect repaired by `fixes/C18-50`: 18 elements before the end marker make the
+declaration reader of the pinned commit underflow `17*8 - (len+1)*8` -/
+theorem c18_mdl_declaration_unfixed_witness :
+    faults (P.run C18Mdl.declarationUnfixed (List.replicate 144 0 ++ [255, 0, 0, 0, 0, 0, 0, 0])) :=
+  faults_of_isFault (by decide +kernel)
+/-- the repaired reader rejects the same input -/
+example : (P.run C18Mdl.declaration (List.replicate 144 0 ++ [255, 0, 0, 0, 0, 0, 0, 0])).cls = "none" := by
+  decide +kernel
+/-- witness of the defect repaired by `fixes/C18-52`: an unterminated name runs off the string block -/
+theorem c18_mdl_name_scan_unfixed_witness : faults (C18Mdl.nameScanUnfixed [0x61, 0x62] 3 0) :=
+  faults_of_isFault (by decide +kernel)
+example : (C18Mdl.readName [0x61, 0x62] 0).cls = "none" := by decide +kernel
+example : (C18Mdl.readName [0x61, 0x62, 0] 0).cls = "some" := by decide +kernel
 
 end Physis.C18
